@@ -25,7 +25,22 @@ def design_and_replay(run, tier, seed, want, tag, nreplay):
     rep = [r for r in d["replay"] if want(r)]
     rng = random.Random(seed)
     rng.shuffle(rep)
-    rep = rep[:nreplay]
+    # histories in which a file written with --filter-ambig-as-missing (its cached counts then differ
+    # from a fresh file's) is operated on again are the ones hidden state can show in: take them first
+    def hidden(r):
+        h = r["hist"]
+        return any(x["op"]["do"] == "weed" and x["op"]["opts"]["ambigMissing"] and i + 1 < len(h) and h[i + 1]["file"] == x["file"]
+                   for i, x in enumerate(h))
+    def hidden_delete(r):
+        h = r["hist"]
+        return any(x["op"]["do"] == "weed" and x["op"]["opts"]["ambigMissing"] and i + 1 < len(h) and h[i + 1]["file"] == x["file"]
+                   and h[i + 1]["op"]["do"] == "delete" for i, x in enumerate(h))
+    t0 = [r for r in rep if hidden_delete(r)]
+    t1 = [r for r in rep if hidden(r) and not hidden_delete(r)]
+    t2 = [r for r in rep if not hidden(r)]
+    n0 = min(len(t0), max(nreplay // 2, 300))
+    n1 = min(len(t1), max((nreplay - n0) // 2, 0))
+    rep = t0[:n0] + t1[:n1] + t2[:max(nreplay - n0 - n1, 20)]
     # a random subset of the probe battery per history keeps the replay affordable
     for r in rep:
         r["probes"] = rng.sample(r["probes"], min(len(r["probes"]), 6))
